@@ -47,6 +47,12 @@ func schemaDesc() string {
 	if data == nil {
 		panic("aircraftlib schema not registered")
 	}
+	schemaLine = schemaDescOf(data)
+	return schemaLine
+}
+
+// schemaDescOf describes the schema file held in data (a CodeGeneratorRequest message).
+func schemaDescOf(data []byte) string {
 	// what nodemap.Find does on a miss, to measure what it consumes
 	msg, err := capnp.Unmarshal(data)
 	must(err)
@@ -100,8 +106,7 @@ func schemaDesc() string {
 			items = append(items, sx("O", hx64(n.Id())))
 		}
 	}
-	schemaLine = "schema " + sx(items...)
-	return schemaLine
+	return "schema " + sx(items...)
 }
 
 func fieldDesc(m meter, f schema.Field) string {
